@@ -34,6 +34,7 @@ from harness.common import Ctx, Finding, SearchResult, Stream, hx
 
 PROP = 'C06'
 FAMILY = 'runner'
+CALL_CPU_S = 20.0		# CPU budget of one call of a pure real function (output_filepath, try_from_content: microseconds when healthy)
 
 # ---------------------------------------------------------------------------------------------
 # protocol helpers
@@ -136,6 +137,33 @@ def correspond_skip(name: str, cases: list[tuple[Any, list[str], list[str]]], cl
 	st.distinct = len(seen)
 	st.histogram = dict(hist)
 	return st
+
+
+# real-code exceptions that escaped inside a case builder (rule 14: an outcome, not a harness crash) and deadlines that cut a loop short
+CRASHES: list[Finding] = []
+DEADLINES: list[tproj.Deadline] = []
+
+
+def crashed(where: str, e: BaseException, replay: dict[str, Any]) -> None:
+	import traceback
+	tb = traceback.extract_tb(e.__traceback__)
+	real = [f for f in tb if 'rogw' in f.filename]
+	at = f'{os.path.basename(real[-1].filename)}:{real[-1].lineno} {real[-1].name}' if real else (f'{os.path.basename(tb[-1].filename)}:{tb[-1].lineno}' if tb else '?')
+	CRASHES.append(Finding(key=f'unexpected-exception:{where}:{common.exc_enum(e)}', what=f'{where}: {type(e).__name__}: {e} (raised at {at})'[:400], replay={**replay, 'where': where, 'at': at}))
+
+
+def new_deadline(name: str, seconds: float) -> tproj.Deadline:
+	d = tproj.Deadline(name, seconds)
+	DEADLINES.append(d)
+	return d
+
+
+def search_crashes(ctx: Ctx) -> SearchResult:
+	res = SearchResult('no call of the real code made while building or observing a case raises outside the observed outcome classes')
+	res.cases = len(CRASHES)
+	res.findings = list(CRASHES)
+	res.histogram = dict(Counter(f.key for f in CRASHES))
+	return res
 
 
 def load_corpus() -> list[dict[str, Any]]:
@@ -291,7 +319,11 @@ def has_out_of_model(v: Any) -> bool:
 def real_parse(probe: Any, content: str) -> str:
 	probe.seen.clear()
 	try:
-		h = probe.try_from_content(content)
+		with tproj.run_budget(CALL_CPU_S):
+			h = probe.try_from_content(content)
+	except tproj.RunBudgetExceeded:
+		tproj.BUDGET_HITS['try_from_content'] = tproj.BUDGET_HITS.get('try_from_content', 0) + 1
+		return 'RunDoesNotEnd slice=?'
 	except Exception as e:  # noqa: BLE001 - the outcome class is the observation
 		sl = f' slice={hx(probe.seen[-1])}' if probe.seen else ' slice=?'
 		return f'{common.exc_enum(e)}{sl}'
@@ -357,12 +389,12 @@ def stream_header(ctx: Ctx) -> Stream:
 	for content in HANDWRITTEN_CONTENTS:
 		add('parse:handwritten', f'parse\t{hx(av)}\t{hx(content)}', real_parse(probe, content))
 	add('eq:other', 'eqother', _real_eq_other())
-	for _ in range(ctx.scale(500, 6000)):
+	def one() -> None:
 		k = rng.random()
 		if k < 0.12:
 			v = gen_json(rng, 3)
 			add('dumps', f'dumps\t{spec(v)}', hx(json.dumps(v, separators=(',', ':'))))
-			continue
+			return
 		m, t, ver = gen_module_meta(rng), gen_transpiler_meta(rng), gen_version(rng)
 		h = MetaHeader(m, t, ver)
 		vs = '-' if ver is None else spec(ver)
@@ -388,6 +420,13 @@ def stream_header(ctx: Ctx) -> Stream:
 				content = content[:i + 11] + mutate(rng, content[i + 11:])
 				kind = 'parse:mutated'
 			add(kind, f'parse\t{hx(av)}\t{hx(content)}', real_parse(probe, content))
+
+	for i in range(ctx.scale(500, 6000)):
+		try:
+			one()
+		except Exception as e:  # noqa: BLE001 - rule 14
+			if sum(1 for f in CRASHES if f.replay.get('where') == 'header-stream') < 3:
+				crashed('header-stream', e, {'search': 'crash', 'stream': 'header', 'seed': ctx.seed, 'case': i})
 	st = correspond_skip('header', cases, classify=lambda d, r: [d['kind'], f"{d['kind']}→{r[0].split(' ')[0][:12]}"] if d['kind'].startswith('parse') else [d['kind']])
 	st.note = ('real MetaHeader (to_json, to_header_str, __eq__, try_from_content through a subclass that records the text handed to from_json) '
 		'on generated metas (quotes, backslashes, braces, the tag itself, control and non-ASCII characters, falsy versions, non-dict metas) and on '
@@ -421,7 +460,11 @@ def real_output_filepath(output_dirs: list[str], output_language: str, module: s
 	old = os.getcwd()
 	os.chdir(cwd)
 	try:
-		return f'ok {hx(real_runner(output_dirs, output_language).output_filepath(ModulePath(module, language="py")))}'
+		with tproj.run_budget(CALL_CPU_S):
+			return f'ok {hx(real_runner(output_dirs, output_language).output_filepath(ModulePath(module, language="py")))}'
+	except tproj.RunBudgetExceeded:
+		tproj.BUDGET_HITS['output_filepath'] = tproj.BUDGET_HITS.get('output_filepath', 0) + 1
+		return 'RunDoesNotEnd'
 	except Exception as e:  # noqa: BLE001 - the outcome class is the observation
 		return common.exc_enum(e)
 	finally:
@@ -591,6 +634,10 @@ def graph_shapes() -> dict[str, dict[str, list[str]]]:
 		# dotted paths contained in one another (prefix, suffix, infix, sub-package), the longer ones listed first (MODULE_ORDER)
 		'subnames': {'app.shape_utils': [], 'app.xshape': [], 'app.shape': [], 'app.other': []},
 		'subnames_pkg': {'lib.app.m1': [], 'app.m10': ['app.m1'], 'app.sub.m1': [], 'app.m1': [], 'app.m': []},
+		# modules whose source does not mention their own name (is_anon): empty `__init__.py` files in two packages and two copies
+		# of one file — BYTE-IDENTICAL sources (equal md5) at different module paths, regenerated by the same run
+		'twins': {'app.p.__init__': [], 'app.p.same': [], 'app.u': [], 'lib.q.__init__': [], 'lib.q.same': []},
+		'twins3': {'app.__init__': [], 'app.same': [], 'app.sub.__init__': [], 'app.sub.same': [], 'lib.same': []},
 	}
 
 
@@ -605,9 +652,24 @@ def ident(module: str) -> str:
 	return module.replace('.', '_')
 
 
+def is_anon(module: str) -> bool:
+	"""Modules whose generated source depends on the variant only (never on the module's name): two of them with variants equal
+	modulo 4 have byte-identical sources."""
+	return module.rsplit('.', 1)[-1] in ('__init__', 'same')
+
+
+def anon_source(module: str, variant: int) -> str:
+	ty, lit = TYPES[variant % 4]
+	if module.endswith('__init__'):
+		return '' if variant % 4 == 0 else f'v = {lit}\n'
+	return '\n'.join([f'def val() -> {ty}:', f'\treturn {lit}', '', f'v = {lit}', ''])
+
+
 def module_source(name: str, imports: list[str], variant: int) -> str:
 	"""A small typed module (same family as the C05 generator): `variant` selects the declared return type of `g_<name>`, where
 	the module-level variable `v_<name>` takes its inferred type from, and what the local `z` in `h_<name>` is assigned from."""
+	if is_anon(name):
+		return anon_source(name, variant)
 	ty, lit = TYPES[variant % 4]
 	var_mode = (variant // 4) % 3
 	loc_mode = (variant // 12) % 2
@@ -632,7 +694,7 @@ def module_source(name: str, imports: list[str], variant: int) -> str:
 
 def with_extras(source: str, name: str, extras: int) -> str:
 	"""`extras` further functions after the module's fixed part (an edit can make the module — and its output — longer or shorter)."""
-	n = ident(name)
+	n = 'anon' if is_anon(name) else ident(name)
 	return source + ''.join(f"\ndef x{i}_{n}(a: int) -> int:\n\tb = a + {i}\n\treturn b * {i + 2}\n" for i in range(extras))
 
 
@@ -661,6 +723,10 @@ def gen_safe_dirs(rng: random.Random, simple: bool = False) -> list[str]:
 _TEMPLATE: dict[str, str] = {}
 
 
+class TemplateRunFails(Exception):
+	"""`run -f` over a one-module project with an empty cache fails: an outcome of the real code (a finding), not an infrastructure failure."""
+
+
 def cache_template(ctx: Ctx) -> str:
 	"""A `.cache` directory holding what a first run leaves for the library modules (copied into every new project: saves the
 	~1 s library parse per case; the library sources never change during a check run)."""
@@ -671,7 +737,7 @@ def cache_template(ctx: Ctx) -> str:
 			proj.write_module('app.z0', 'def g_z0() -> int:\n\treturn 1\n')
 			res = proj.run(force=True)
 			if not res.ok:
-				raise common.InfraError(f'C06: template project run failed: {res.message}')
+				raise TemplateRunFails(res.error, res.message)
 			for rel in proj.cache_files():
 				if rel.startswith('app/'):
 					os.unlink(os.path.join(proj.cache_dir, rel))
@@ -898,7 +964,10 @@ def run_observed(proj: tproj.Project, force: bool) -> tuple[tproj.RunResult, lis
 	try:
 		with tproj.AUDIT.watch(proj.root) as events, contextlib.redirect_stdout(io.StringIO()):
 			try:
-				App(TranspileApp.definitions(Args(list(argv)))).run(TranspileApp.run)
+				with tproj.run_budget():
+					App(TranspileApp.definitions(Args(list(argv)))).run(TranspileApp.run)
+			except tproj.RunBudgetExceeded:
+				tproj.budget_hit(res, 'run_observed')
 			except Exception as e:  # noqa: BLE001 - the outcome class is the observation
 				res.ok = False
 				res.error = common.exc_enum(root_cause(e))
@@ -959,7 +1028,14 @@ def gen_owner_switch(rng: random.Random, graph: dict[str, list[str]]) -> tuple[l
 
 
 def gen_variants(rng: random.Random, graph: dict[str, list[str]]) -> dict[str, int]:
-	return {m: rng.randrange(N_VARIANTS) for m in graph}
+	out = {m: rng.randrange(N_VARIANTS) for m in graph}
+	# name-free modules mostly start byte-identical (all `__init__.py` empty, all copies of `same.py` equal)
+	if any(is_anon(m) for m in graph) and rng.random() < 0.8:
+		v = rng.randrange(N_VARIANTS)
+		for m in graph:
+			if is_anon(m):
+				out[m] = 0 if m.endswith('__init__') else v
+	return out
 
 
 def next_op(rng: random.Random, case: RealCase, with_put: bool = True, with_force: bool = True, with_dirs: bool = True, with_ver: bool = True) -> list[Any]:
@@ -974,6 +1050,9 @@ def next_op(rng: random.Random, case: RealCase, with_put: bool = True, with_forc
 		v = rng.randrange(N_VARIANTS) if rng.random() < 0.7 else (case.variants[m] + 1) % 4 + 4 * (case.variants[m] // 4)
 		if rng.random() < 0.1:
 			v = case.variants[m]		# rewrite without change: new mtime, same hash
+		twins = [o for o in mods if o != m and is_anon(o) and is_anon(m) and o.rsplit('.', 1)[-1] == m.rsplit('.', 1)[-1]]
+		if twins and rng.random() < 0.5:
+			v = case.variants[rng.choice(twins)]		# the module becomes a byte-identical copy of its twin
 		return ['edit', m, v]
 	if r < 0.48:
 		return ['run', 0]
@@ -1049,11 +1128,25 @@ def stream_runner(ctx: Ctx) -> Stream:
 	rng = ctx.sub_rng('runner')
 	cases = []
 	with ctx.timed('runner_real'):
+		dl = new_deadline('stream runner', ctx.scale(90, 600))
 		for rec in load_corpus():
 			if rec.get('stream') == 'runner' or rec.get('search') in ('fixpoint', 'force'):
-				cases.append(case_runner(ctx, rng, 0, fixed=rec))
-		for _ in range(ctx.scale(18, 160)):
-			cases.append(case_runner(ctx, rng, ctx.scale(9, 16)))
+				try:
+					cases.append(case_runner(ctx, rng, 0, fixed=rec))
+				except common.InfraError:
+					raise
+				except Exception as e:  # noqa: BLE001 - rule 14
+					crashed('runner-stream', e, {'search': 'fixpoint', **{k: rec[k] for k in ('shape', 'variants', 'dirs', 'ops') if k in rec}})
+		n = ctx.scale(18, 160)
+		for i in range(n):
+			if dl.over(n - i):
+				break
+			try:
+				cases.append(case_runner(ctx, rng, ctx.scale(9, 16)))
+			except common.InfraError:
+				raise
+			except Exception as e:  # noqa: BLE001 - rule 14
+				crashed('runner-stream', e, {'search': 'crash', 'stream': 'runner', 'seed': ctx.seed, 'case': i})
 	st = correspond_skip('runner', cases, classify=lambda d, r: [d['shape'], f"dirs:{len(d['dirs'])}", *d['kinds']])
 	st.note = ('real TranspileApp in temporary projects (two packages, chains / diamond / flat graphs); ops edit / run / run -f / rm-output / set-dirs '
 		'(only configurations whose real output paths stay inside the project) / set-force / put (foreign or stale content at an output path); '
@@ -1142,26 +1235,39 @@ def _first_diff(x: bytes, y: bytes) -> str:
 	return f'{len(la)} vs {len(lb)} lines'
 
 
-def header_hash_wrong(case: RealCase, files: dict[str, bytes]) -> str:
-	"""The header a forced run writes records the md5 of the module's own current source and the module's path (state sentence of the
-	property) — checked with the harness' own reading of the first line, for modules that do not share their output path."""
+def header_wrong(case: RealCase, files: dict[str, bytes], only_paths: list[str] | None = None) -> tuple[str, str]:
+	"""The header a run writes into the output of a module is the header of THAT module under the versions in force (state
+	sentence of the property: source hash, module path, transpiler and application version) — checked with the harness' own reading
+	of the first line against the md5 of the module's current source, its dotted path and the version constants the run was given,
+	for modules that do not share their output path. `only_paths`: absolute paths to look at (the files a plain run wrote).
+	Returns (finding key, description) or ('', '')."""
 	from rogw.tranp.data.meta.header import MetaHeader
 	by_path: dict[str, list[str]] = {}
 	for m in case.graph:
 		by_path.setdefault(case.real_path(m), []).append(m)
+	tm = versions()[2]
 	for r, ms in by_path.items():
 		if len(ms) != 1 or not r.startswith('ok '):
+			continue
+		if only_paths is not None and common.unhx(r[3:]) not in only_paths:
 			continue
 		rel = os.path.relpath(common.unhx(r[3:]), case.proj.root)
 		if rel not in files:
 			continue
 		try:
 			recorded = json.loads(first_line(files[rel]).split(f'{MetaHeader.Tag}: ', 1)[1])
+			if not isinstance(recorded, dict):
+				raise ValueError('not an object')
 		except Exception as e:  # noqa: BLE001
-			return f'{rel} has no readable header ({type(e).__name__})'
+			return 'header-hash-wrong', f'{rel} has no readable header ({type(e).__name__})'
 		if recorded.get('module') != {'hash': case.token(ms[0]), 'path': ms[0]}:
-			return f"{rel} records module {recorded.get('module')}, module {ms[0]} has source md5 {case.token(ms[0])}"
-	return ''
+			return 'header-hash-wrong', f"{rel} records module {recorded.get('module')}, module {ms[0]} has source md5 {case.token(ms[0])}"
+		expected = {'version': case.vers['app'], 'transpiler': {'version': case.vers['py2cpp'], 'module': tm}}
+		got = {'version': recorded.get('version'), 'transpiler': recorded.get('transpiler')}
+		if got != expected:
+			return 'header-version-wrong', (f"{rel} (module {ms[0]}) records application version {got['version']!r} and transpiler {got['transpiler']!r}; the run was made by "
+				f"application version {case.vers['app']!r} with transpiler version {case.vers['py2cpp']!r} ({tm})")
+	return '', ''
 
 
 def probe_fixpoint(ctx: Ctx, case: RealCase, again: list[str] | None = None) -> tuple[tuple[str, dict[str, bytes], list[str]], tuple[str, dict[str, bytes], list[str]]]:
@@ -1289,10 +1395,16 @@ def fixpoint_history(ctx: Ctx, rng: random.Random, res: SearchResult, hist: Coun
 				res.findings.append(Finding(key=key, what=why, replay=replay))
 				hist[f'finding:{key}'] += 1
 				break
-			wrong = header_hash_wrong(case, b[1])
+			wkey, wrong = header_wrong(case, b[1])
 			if wrong:
-				res.findings.append(Finding(key='header-hash-wrong', what=f'after a forced run {wrong}', replay=replay))
-				hist['finding:header-hash-wrong'] += 1
+				res.findings.append(Finding(key=wkey, what=f'after a forced run {wrong}', replay=replay))
+				hist[f'finding:{wkey}'] += 1
+			elif a[0] == 'ok':
+				# … and so is every file the PLAIN run wrote
+				wkey, wrong = header_wrong(case, a[1], only_paths=a[2])
+				if wrong:
+					res.findings.append(Finding(key=wkey, what=f'after a plain run that regenerated it, {wrong}', replay=replay))
+					hist[f'finding:{wkey}'] += 1
 			if again and not wrong and (a[0], a[1]) == (b[0], b[1]):
 				# files that need no regeneration are left untouched: right after a plain run nothing needs regeneration
 				by_path: dict[str, list[str]] = {}
@@ -1326,6 +1438,14 @@ def fixpoint_history(ctx: Ctx, rng: random.Random, res: SearchResult, hist: Coun
 
 
 DIRECTED_PLANS: list[dict[str, Any]] = [
+	# byte-identical sources at different module paths (two empty __init__.py, two copies of one file), regenerated by one run
+	{'search': 'fixpoint', 'shape': 'twins', 'variants': {'app.p.__init__': 0, 'app.p.same': 5, 'app.u': 2, 'lib.q.__init__': 0, 'lib.q.same': 5}, 'dirs': ['./out'], 'lang': 'cpp:h',
+		'ops': []},
+	{'search': 'fixpoint', 'shape': 'twins3', 'variants': {'app.__init__': 0, 'app.same': 2, 'app.sub.__init__': 0, 'app.sub.same': 3, 'lib.same': 2}, 'dirs': ['out'], 'lang': 'cpp:h',
+		'ops': [['run', 0], ['edit', 'app.sub.same', 2], ['edit', 'app.same', 6], ['edit', 'lib.same', 6]]},
+	# releases that change the application version and the transpiler version independently of each other
+	{'search': 'fixpoint', 'shape': 'flat3', 'variants': {'app.a': 0, 'app.b': 1, 'lib.a': 2}, 'dirs': ['./out'], 'lang': 'cpp:h',
+		'ops': [['setver', 'py2cpp', '2.0.0'], ['run', 0], ['setver', 'app', '1.0.1'], ['run', 0], ['setver', 'py2cpp', '0.9']]},
 	# a release with another TRANSPILER version after a run (the application version is the corpus case fixpoint-version-change.json)
 	{'search': 'fixpoint', 'shape': 'chain2', 'variants': {'app.a': 0, 'app.b': 0}, 'dirs': ['./out'], 'lang': 'cpp:h',
 		'ops': [['run', 0], ['setver', 'py2cpp', '1.0.1']]},
@@ -1354,16 +1474,29 @@ def search_fixpoint(ctx: Ctx) -> SearchResult:
 	seen: set[str] = set()
 	budget = [ctx.scale(80, 1300)]
 	with ctx.timed('search_fixpoint'):
+		dl = new_deadline('search fixpoint', ctx.scale(120, 700))
+
+		def guarded(plan: dict[str, Any] | None, flat: bool, n_ops: int, i: int) -> None:
+			try:
+				fixpoint_history(ctx, rng, res, hist, seen, plan, flat, n_ops, budget)
+			except common.InfraError:
+				raise
+			except Exception as e:  # noqa: BLE001 - rule 14: an exception of the real code inside the oracle is an outcome
+				crashed('fixpoint-search', e, dict(plan) if plan is not None else {'search': 'crash', 'oracle': 'fixpoint', 'seed': ctx.seed, 'history': i})
+				budget[0] -= 4
+
 		for rec in load_corpus():
 			if rec.get('search') == 'fixpoint':
-				fixpoint_history(ctx, rng, res, hist, seen, rec, False, 0, budget)
+				guarded(rec, False, 0, -1)
 		# directed histories that every run executes: module names contained in one another, the shorter one edited after a run
 		for plan in DIRECTED_PLANS:
-			fixpoint_history(ctx, rng, res, hist, seen, plan, False, 0, budget)
+			guarded(plan, False, 0, -1)
 		i = 0
 		while budget[0] > 0:
+			if dl.over(max(budget[0] // 4, 1)):
+				break
 			# graphs without imports: every output depends on its own source only — here the law must hold exactly
-			fixpoint_history(ctx, rng, res, hist, seen, None, flat=(i % 2 == 0), n_ops=ctx.scale(8, 14), budget=budget)
+			guarded(None, i % 2 == 0, ctx.scale(8, 14), i)
 			i += 1
 	res.distinct = len(seen)
 	res.histogram = dict(hist)
@@ -1591,6 +1724,7 @@ STATEMENTS = {
 	'generated_shapes': 'the statements of can_transpile / MetaHeader (__eq__, identity, to_json, __init__, from_json, to_header_str, try_from_content) / module_meta_factory / Py2Cpp.meta / try_load_meta_header / _run_impl / Config.force / Writer (__init__, put, flush, _flush), read from the source by the translator on every run, are the ones the model implements',
 	'compared_fields_generated': 'the header the model builds has exactly the generated compared fields (version, module.hash, module.path, transpiler.version, transpiler.module) and they carry the current inputs',
 	'skip_implies_equal_header_inputs': 'a skipped module has a parsable stored header with the identity of the current header; with md5 collision-free on the two texts and json.loads decoding them every generated compared field equals the current input',
+	'compared_inputs_distinct': 'the five compared header fields are computed from five pairwise different sources read from the code on every run (Versions.app, sources.hash(filepath), module_path.path, Versions.py2cpp, to_fullyname(Py2Cpp)): the two version fields read two different constants',
 	'shipped_versions_nonempty': 'the version constants read from data/version.py are non-empty (the VersNonEmpty hypothesis holds for the shipped release)',
 	'paths_fallback_only_noOverlap': 'the path hypothesis of the history theorems (NoOverlap) holds for every fallback-only output_dirs and every duplicate-free list of clean module paths',
 	'regen': 'target selection: a module is regenerated iff it is listed and (effective force ∨ no file ∨ no header ∨ recorded header identity ≠ current); order kept',
@@ -1617,7 +1751,11 @@ def build_streams(ctx: Ctx) -> list[Stream]:
 
 
 def build_searches(ctx: Ctx) -> list[SearchResult]:
-	return [search_roundtrip(ctx), search_paths(ctx), search_force(ctx), search_fixpoint(ctx)]
+	out = [search_roundtrip(ctx), search_paths(ctx), search_force(ctx), search_fixpoint(ctx)]
+	out.append(search_crashes(ctx))
+	ctx.notes.extend(n for n in (d.note() for d in DEADLINES) if n)
+	ctx.notes.extend(tproj.budget_notes())
+	return out
 
 
 def translate(ctx: Ctx) -> tuple[bool, str]:
@@ -1639,10 +1777,21 @@ def translate(ctx: Ctx) -> tuple[bool, str]:
 def run(ctx: Ctx) -> int:
 	translate_ok, translate_msg = translate(ctx)
 	proof = common.prove(ctx, PROP, leanchecker=ctx.thorough)
-	with ctx.timed('correspondence'):
-		streams = build_streams(ctx)
-	with ctx.timed('search'):
-		searches = build_searches(ctx)
+	streams: list[Stream] = []
+	searches: list[SearchResult] = []
+	try:
+		cache_template(ctx)
+	except TemplateRunFails as e:
+		res = SearchResult('`run -f` over a one-module project (app/z0.py: one function returning 1) with an empty cache directory succeeds')
+		res.cases = 1
+		res.findings.append(Finding(key=f'run-fails:{e.args[0]}', what=f'forced run over a valid one-module project fails: {e.args[1]}'[:400],
+			replay={'search': 'fixpoint', 'shape': 'chain2', 'variants': {'app.a': 0, 'app.b': 0}, 'dirs': ['./out'], 'lang': 'cpp:h', 'ops': []}))
+		searches = [res]
+	if not searches:
+		with ctx.timed('correspondence'):
+			streams = build_streams(ctx)
+		with ctx.timed('search'):
+			searches = build_searches(ctx)
 	return common.finish(ctx, proof, streams, searches, translate_ok=translate_ok, translate_msg=translate_msg,
 		statements=STATEMENTS,
 		partial={
@@ -1673,7 +1822,7 @@ def replay(ctx: Ctx, path: str) -> int:
 	print(json.dumps(rec, indent=1, ensure_ascii=False)[:3000])
 	inp = rec.get('input', rec)
 	kind = inp.get('search')
-	if rec.get('kind') == 'proof-or-correspondence-broken' or kind is None:
+	if rec.get('kind') == 'proof-or-correspondence-broken' or kind is None or kind == 'crash':
 		print('replay: re-running the full check with the recorded seed')
 		return run(Ctx(PROP, rec.get('tier', 'quick'), int(rec.get('seed', 0))))
 	res = SearchResult(f'replay:{kind}')
